@@ -4,6 +4,7 @@ import YardlModel.Batch
 import YardlModel.Expr
 import YardlModel.Imports
 import YardlModel.Proto
+import YardlModel.Schema
 
 /-! Line-protocol driver for the wire engine: one JSON request per line on stdin, one JSON
     reply per line on stdout. -/
@@ -274,6 +275,15 @@ def handle (j : Json) : Except String Json := do
         | _ => throw s!"bad prop {t}"
       pure (fin (firstReject (Proto.pyR shape) 0 rops 0))
     | _ => throw s!"bad machine {machine}"
+  | "plan_of_schema" =>
+    let txt ← (← j.getObjVal? "schema").getStr?
+    match Json.parse txt with
+    | .error e => pure (Json.mkObj [("error", Json.str s!"schema is not JSON: {e}")])
+    | .ok sj =>
+      match Schema.planOfSchema sj with
+      | .error e => pure (Json.mkObj [("error", Json.str e)])
+      | .ok p => pure (Json.mkObj [("proto", Json.arr (p.map fun st => Json.mkObj [("name", Json.str st.name),
+          ("ty", Schema.tyToJson st.ty), ("stream", Json.bool st.isStream)]).toArray)])
   | "cos" =>
     let lang ← (← j.getObjVal? "lang").getStr?
     let cap ← jNat (← j.getObjVal? "cap")
